@@ -125,7 +125,9 @@ def search_case(k, rng, nq):
                 extforms[w[0]] = [f for f in rng.sample(FORMS, rng.choice([1, 1, 2]))
                                   if f != w[3] and f not in w[4]]
         if extforms:
-            scope = ['L', 'X'] if rng.random() < 0.7 else ['L', 'X', 'M']
+            # ... or not selected at all: then the forms a word has are those Word.forms() reports
+            # for it in that Wordnet (whether those should include X's is C04's finding, not C09's)
+            scope = rng.choice([['L', 'X'], ['L', 'X'], ['L', 'X', 'M'], ['L'], ['L', 'M']])
     if not any(w[1] in scope for w in words):
         words[0][1] = scope[0]
         words[0][0] = f'{scope[0]}-w0'
@@ -163,7 +165,9 @@ def c09(tier: str) -> int:
         '(lower-case, NFKD, combining marks removed), independently of wn._util.normalize_form',
         'the candidates a lemmatizer proposes are logged by calling it directly; TLC checks what the '
         'search does with them (Morphy itself is C17)',
-        'scopes are whole lexicons without unselected extensions (that is C04)']
+        'when an installed extension is not selected, the forms of a base word are taken to be those '
+        'Word.forms() reports in that same Wordnet (the search has to agree with them; whether they '
+        'should include the unselected extension\'s forms is C04\'s known finding)']
     v.add_model('MC_Search (lexicons of <=3 words x queries x pos x normalizer x search_all_forms x lemmatizer)',
                 tlc_model('MC_Search'))
     rng = random.Random(seed() + 9)
